@@ -26,6 +26,7 @@ Tokens ==
   \cup {<<"pfx-entry", i>> : i \in {"1", "2^32-1"}} \cup {<<"dt-entry", i>> : i \in {"1", "2^32-1"}}
   \cup {<<"metadata">>, <<"many-rows">>, <<"many-empty-frames">>, <<"namespace-row">>, <<"graph-start-nested">>}
   \cup {<<"statement", d>> : d \in {"flat", "nest-3", "nest-99", "nest-101", "nest-5000", "repeat-all"}}
+  \cup {<<"strings", k>> : k \in {"alnum-run-then-odd", "hyphen-runs-then-odd", "blanks", "nested-brackets"}}     \* strings built to make string processing (validation, splitting) blow up
   \cup {<<"frame-end", l>> : l \in LenClass}
   \cup {<<"empty-frame">>, <<"garbage">>, <<"unknown-field">>}
 
